@@ -7,6 +7,17 @@ for l in open("/verif/properties.jsonl"):
     p = json.loads(l)
     if p["id"] == pid:
         break
+import glob, os
+tried = []
+for d in sorted(glob.glob("/verif/seeded/%s-*" % pid)):
+    try:
+        tried.append("- " + json.load(open(os.path.join(d, "meta.json")))["summary"][:300])
+    except Exception:
+        pass
+tried_text = ""
+if tried:
+    tried_text = ("\nIdeas that were ALREADY used in an earlier round for this property - do NOT repeat them or close variants; pick different code sites / mechanisms:\n"
+                  + "\n".join(tried) + "\n")
 print(f"""You are helping to stress-test an (unseen) verification framework for the Go library hashicorp/go-slug
 (module github.com/hashicorp/go-slug): packs/unpacks Terraform 'slug' tar.gz archives, parses module source addresses,
 builds multi-package source bundles.
@@ -21,6 +32,7 @@ Statement: {p['statement']}
 Quantified over: {p['quantifier']['text']}
 Relevant files: {', '.join(p['anchors']['files'])}
 
+{tried_text}
 TASK: write TWO different, independent, realistic changes (call them m1 and m2, at different code sites or with different
 mechanisms) to the library's NON-test source, each of which BREAKS this property while
   (a) the module still compiles,
